@@ -389,6 +389,7 @@ func clampCounts(b []byte, max uint32) []byte {
 
 type genOutcome struct {
 	ok    bool
+	obj   registry.Generated // the decoded Go value itself
 	val   ref.Val
 	str   string
 	err   string
@@ -420,9 +421,76 @@ func describe(x registry.Generated) genOutcome {
 	v, err := toRef(x)
 	if err != nil {
 		// decoded fine but cannot be re-serialised: compare by its String()
-		return genOutcome{ok: true, str: x.String(), val: ref.Val{}, err: "towire: " + err.Error()}
+		return genOutcome{ok: true, obj: x, str: x.String(), val: ref.Val{}, err: "towire: " + err.Error()}
 	}
-	return genOutcome{ok: true, val: v}
+	return genOutcome{ok: true, obj: x, val: v}
+}
+
+// goEqual compares two decoded Go values field by field: a nil pointer, slice or map is
+// not an empty one (the generated Equals methods draw the same line; serialising would
+// hide it where ToWire fills in defaults), floats compare by their bits (NaN equals itself).
+func goEqual(a, b reflect.Value) bool {
+	if a.IsValid() != b.IsValid() {
+		return false
+	}
+	if !a.IsValid() {
+		return true
+	}
+	if a.Type() != b.Type() {
+		return false
+	}
+	switch a.Kind() {
+	case reflect.Ptr, reflect.Interface:
+		if a.IsNil() || b.IsNil() {
+			return a.IsNil() == b.IsNil()
+		}
+		return goEqual(a.Elem(), b.Elem())
+	case reflect.Struct:
+		for i := 0; i < a.NumField(); i++ {
+			if !goEqual(a.Field(i), b.Field(i)) {
+				return false
+			}
+		}
+		return true
+	case reflect.Slice:
+		if a.IsNil() != b.IsNil() || a.Len() != b.Len() {
+			return false
+		}
+		for i := 0; i < a.Len(); i++ {
+			if !goEqual(a.Index(i), b.Index(i)) {
+				return false
+			}
+		}
+		return true
+	case reflect.Map:
+		if a.IsNil() != b.IsNil() || a.Len() != b.Len() {
+			return false
+		}
+		for _, k := range a.MapKeys() {
+			bv := b.MapIndex(k)
+			if !bv.IsValid() || !goEqual(a.MapIndex(k), bv) {
+				return false
+			}
+		}
+		return true
+	case reflect.Float32, reflect.Float64:
+		return math.Float64bits(a.Float()) == math.Float64bits(b.Float())
+	case reflect.Bool:
+		return a.Bool() == b.Bool()
+	case reflect.Int, reflect.Int8, reflect.Int16, reflect.Int32, reflect.Int64:
+		return a.Int() == b.Int()
+	case reflect.String:
+		return a.String() == b.String()
+	}
+	return reflect.DeepEqual(a.Interface(), b.Interface())
+}
+
+// goDiff explains a difference that the serialised forms do not show.
+func goDiff(a, b genOutcome) string {
+	if a.obj == nil || b.obj == nil || a.err != "" || b.err != "" || !ref.Equal(a.val, b.val) {
+		return ""
+	}
+	return fmt.Sprintf(" - both serialise alike, but the Go values differ (nil against non-nil): value-based %s, streaming %s", first(a.obj.String(), 300), first(b.obj.String(), 300))
 }
 
 func sameGen(a, b genOutcome) bool {
@@ -432,7 +500,13 @@ func sameGen(a, b genOutcome) bool {
 	if a.err != "" {
 		return a.str == b.str
 	}
-	return ref.Equal(a.val, b.val)
+	if !ref.Equal(a.val, b.val) {
+		return false
+	}
+	if a.obj != nil && b.obj != nil && !goEqual(reflect.ValueOf(a.obj), reflect.ValueOf(b.obj)) {
+		return false
+	}
+	return true
 }
 
 func valueBased(e registry.Entry, b []byte) genOutcome {
@@ -619,7 +693,7 @@ func RunC04(cfg simrt.Config, o world.Opts) *world.Result {
 		case vb.ok && st.ok:
 			res.Count("c04.both-accept", 1)
 			if !sameGen(vb, st) {
-				res.Failf("C04/values-differ", "%s on %x (%s): value-based %s, streaming %s", e.Name, clip(b, 96), desc, vb, st)
+				res.Failf("C04/values-differ", "%s on %x (%s): value-based %s, streaming %s%s", e.Name, clip(b, 96), desc, vb, st, goDiff(vb, st))
 			}
 		case vb.ok && !st.ok:
 			res.Failf("C04/stream-rejects", "%s on %x (%s): value-based path accepts (%s) but streaming rejects: %s", e.Name, clip(b, 96), desc, vb, st)
